@@ -42,6 +42,15 @@ class _Rename(ast.NodeTransformer):
             return ast.copy_location(copy.deepcopy(v), node)
         return node
 
+    def visit_ExceptHandler(self, node: ast.ExceptHandler):
+        # `except E as e` binds e through a string field, not a Name node
+        self.generic_visit(node)
+        v = self.mapping.get(node.name) if node.name else None
+        if isinstance(v, str):
+            node = copy.copy(node)
+            node.name = v
+        return node
+
 
 def _simple(e: ast.AST) -> bool:
     if isinstance(e, (ast.Name, ast.Constant)):
@@ -146,7 +155,12 @@ def _structure(stmts: list, emit: Callable[[Optional[ast.expr], ast.AST], list])
                     new.body = [ast.copy_location(ast.Pass(), s)]
                 out.append(new)
                 return out
-            raise _NoStructure()
+            # a return somewhere inside an arm that can also fall through (if A: .. elif B: .. else: return X; REST): what follows
+            # the `if` runs after every arm that falls through -- it is written into both arms
+            new.body = _structure(list(s.body) + copy.deepcopy(rest), emit) or [ast.copy_location(ast.Pass(), s)]
+            new.orelse = _structure(list(s.orelse) + copy.deepcopy(rest), emit)
+            out.append(new)
+            return out
         if isinstance(s, (ast.For, ast.While)) and not s.orelse and _loop_returns_ok(s):
             # search loop: `for ..: if c: return v`  ->  flag = False; for ..: if c: <emit v>; flag = True; break
             #              <rest>                         if not flag: <rest>
